@@ -11,7 +11,7 @@ pub fn drive(t: &mut Tracer, tier: &str, seed: u64, child: bool) {
     let count = if thorough { 8000 } else { 700 };
     let proc_id = if child { 2 } else { 1 };
     crate::suites::sm2::rng_ops_sm2(t, sess, proc_id, count, false, &mut rng, &mut real);
-    crate::suites::sm9::rng_ops_sm9(t, sess, proc_id, if thorough { 600 } else { 60 }, false, &mut rng, &mut real);
+    crate::suites::sm9::rng_ops_sm9(t, sess, proc_id, if thorough { 600 } else { 208 }, false, &mut rng, &mut real);
     if child {
         return;
     }
